@@ -294,6 +294,68 @@ Theorem C02_cone_scale_axis : forall s k o t,
 Proof. exact cone_scale_axis. Qed.
 Print Assumptions C02_cone_scale_axis.
 
+
+(* ---- Plane transforms (proofs/C02_planes.v, about the generated code): for a plane with an orthonormal frame, every transform returns a
+   plane with an orthonormal frame, with normal / x axis / origin the images of the old ones, containing the image of every point of
+   the old plane.  sqrt enters as a morphism with sqrt 1 = 1 (the frame vectors are unit) *)
+From LBG Require Import C06_plane C02_planes.
+
+Theorem C02_plane_move_frame : forall qsqrt (sqrt_proper : Proper (Qeq ==> Qeq) qsqrt) (sqrt_one : qsqrt 1 == 1) p m,
+  frame_ok p ->
+  let p' := Plane_move qsqrt p m in
+  frame_ok p' /\ pl_n p' =3= pl_n p /\ pl_x p' =3= pl_x p /\ pl_o p' = Point3D_move (pl_o p) m /\
+  (forall q, on_plane p q -> on_plane p' (Point3D_move q m)).
+Proof. exact plane_move_frame. Qed.
+Print Assumptions C02_plane_move_frame.
+
+Theorem C02_plane_scale_frame : forall qsqrt (sqrt_proper : Proper (Qeq ==> Qeq) qsqrt) (sqrt_one : qsqrt 1 == 1) p k o,
+  frame_ok p ->
+  let p' := Plane_scale qsqrt p k o in
+  frame_ok p' /\ pl_n p' =3= pl_n p /\ pl_x p' =3= pl_x p /\ pl_o p' = Point3D_scale (pl_o p) k o /\
+  (forall q, on_plane p q -> on_plane p' (Point3D_scale q k o)).
+Proof. exact plane_scale_frame. Qed.
+Print Assumptions C02_plane_scale_frame.
+
+Theorem C02_plane_reflect_frame : forall qsqrt (sqrt_proper : Proper (Qeq ==> Qeq) qsqrt) (sqrt_one : qsqrt 1 == 1) p n o,
+  frame_ok p -> dot3 n n == 1 ->
+  let p' := Plane_reflect qsqrt p n o in
+  frame_ok p' /\ pl_n p' =3= Vector3D__reflect (pl_n p) n /\ pl_x p' =3= Vector3D__reflect (pl_x p) n /\
+  pl_o p' = Point3D_reflect (pl_o p) n o /\
+  (forall q, on_plane p q -> on_plane p' (Point3D_reflect q n o)).
+Proof. exact plane_reflect_frame. Qed.
+Print Assumptions C02_plane_reflect_frame.
+
+Theorem C02_plane_rotate_frame : forall qsqrt (sqrt_proper : Proper (Qeq ==> Qeq) qsqrt) (sqrt_one : qsqrt 1 == 1) qcos qsin p axis a o,
+  frame_ok p ->
+  qcos a * qcos a + qsin a * qsin a == 1 ->
+  qsqrt (v3x axis * v3x axis + v3y axis * v3y axis + v3z axis * v3z axis)
+    * qsqrt (v3x axis * v3x axis + v3y axis * v3y axis + v3z axis * v3z axis)
+    == v3x axis * v3x axis + v3y axis * v3y axis + v3z axis * v3z axis ->
+  ~ v3x axis * v3x axis + v3y axis * v3y axis + v3z axis * v3z axis == 0 ->
+  let R := fun v => Vector3D__rotate qsqrt qcos qsin v axis a in
+  let p' := Plane_rotate qsqrt qcos qsin p axis a o in
+  frame_ok p' /\ pl_n p' =3= R (pl_n p) /\ pl_x p' =3= R (pl_x p) /\
+  pl_o p' = Point3D_rotate qsqrt qcos qsin (pl_o p) axis a o /\
+  (forall q, on_plane p q -> on_plane p' (Point3D_rotate qsqrt qcos qsin q axis a o)).
+Proof. exact plane_rotate_frame. Qed.
+Print Assumptions C02_plane_rotate_frame.
+
+Theorem C02_plane_rotate_xy_frame : forall qsqrt (sqrt_proper : Proper (Qeq ==> Qeq) qsqrt) (sqrt_one : qsqrt 1 == 1) qcos qsin p a o,
+  frame_ok p -> qcos a * qcos a + qsin a * qsin a == 1 ->
+  let R := fun v => Vector3D_rotate_xy qcos qsin v a in
+  let p' := Plane_rotate_xy qsqrt qcos qsin p a o in
+  frame_ok p' /\ pl_n p' =3= R (pl_n p) /\ pl_x p' =3= R (pl_x p) /\ pl_o p' = Point3D_rotate_xy qcos qsin (pl_o p) a o /\
+  (forall q, on_plane p q -> on_plane p' (Point3D_rotate_xy qcos qsin q a o)).
+Proof. exact plane_rotate_xy_frame. Qed.
+Print Assumptions C02_plane_rotate_xy_frame.
+
+Theorem C02_plane_flip_frame : forall qsqrt (sqrt_proper : Proper (Qeq ==> Qeq) qsqrt) (sqrt_one : qsqrt 1 == 1) p,
+  frame_ok p ->
+  let p' := Plane_flip qsqrt p in
+  frame_ok p' /\ pl_n p' =3= smul3 (-1) (pl_n p) /\ pl_x p' =3= pl_x p /\ pl_o p' = pl_o p /\ (forall q, on_plane p q -> on_plane p' q).
+Proof. exact plane_flip_frame. Qed.
+Print Assumptions C02_plane_flip_frame.
+
 Example C02_hypotheses_satisfiable :
   let qc := fun _ : Q => 3 # 5 in let qs := fun _ : Q => 4 # 5 in let sq := fun _ : Q => 3 in
   let axis := mkV3 1 2 2 in
